@@ -67,6 +67,17 @@ type vfCfg struct {
 	cx         string // the caller cancels the context: "-" never, "P" before the call, "A<i>" while attempt i is in flight, "B<j>" during the j-th back-off sleep
 	kl         string // kv.Variables.Killed is set: same encoding
 	async      bool   // go through SendReqAsync (failpoint useSendReqAsync)
+	// multi-call sequences: pre = the scripts of the earlier SendReq calls on the same cached region ("/" between calls, "+" between
+	// outcomes, "-" = empty script).  The call described by this configuration then starts from the cache state they left behind;
+	// that state is OBSERVED before the call and reported: cached leader, memoised proxy, stale store epochs, load estimates
+	// (plus lv / sl above).
+	pre string
+	olv [3]byte // observed liveness / slow marks before this call (lv / sl stay the initial setting of the first call, for replay)
+	osl [3]bool
+	ld  int
+	px  int
+	es  [3]bool
+	be  [3]bool
 }
 
 func vfTrigAt(t string, kind byte, n int) bool {
@@ -93,9 +104,10 @@ func (c vfCfg) String() string {
 	if c.label >= 0 {
 		lb = strconv.Itoa(c.label)
 	}
-	return fmt.Sprintf("rt=%c,st=%s,rd=%s,lb=%s,lo=%s,lv=%s,sl=%s%s%s,thr=%s,to=%s,ms=%d,val=%s,lr=%s,fw=%s,cmd=%d,inv=%s,tp=%c,cx=%s,kl=%s,ir=%s,as=%s",
+	return fmt.Sprintf("rt=%c,st=%s,rd=%s,lb=%s,lo=%s,lv=%s,sl=%s%s%s,thr=%s,to=%s,ms=%d,val=%s,lr=%s,fw=%s,cmd=%d,inv=%s,tp=%c,cx=%s,kl=%s,ir=%s,as=%s,ld=%d,px=%d,es=%s%s%s,be=%s%s%s,olv=%s,osl=%s%s%s,pre=%s",
 		c.rt, b01(c.stale), b01(c.read), lb, b01(c.leaderOnly), string(c.live[:]), b01(c.slow[0]), b01(c.slow[1]), b01(c.slow[2]),
-		b01(c.thr), b01(c.shortTO), c.ms, b01(c.val), b01(c.learner), b01(c.fw), c.cmd, b01(c.inv), c.tp, c.cx, c.kl, b01(c.cmd == 0 || vfInterruptible(tikvrpc.CmdType(c.cmd))), b01(c.async))
+		b01(c.thr), b01(c.shortTO), c.ms, b01(c.val), b01(c.learner), b01(c.fw), c.cmd, b01(c.inv), c.tp, c.cx, c.kl, b01(c.cmd == 0 || vfInterruptible(tikvrpc.CmdType(c.cmd))), b01(c.async),
+		c.ld, c.px, b01(c.es[0]), b01(c.es[1]), b01(c.es[2]), b01(c.be[0]), b01(c.be[1]), b01(c.be[2]), string(c.olv[:]), b01(c.osl[0]), b01(c.osl[1]), b01(c.osl[2]), c.pre)
 }
 
 func vfParseCfg(s string) vfCfg {
@@ -151,6 +163,8 @@ func vfParseCfg(s string) vfCfg {
 			c.kl = v
 		case "as":
 			c.async = v == "1"
+		case "pre":
+			c.pre = v
 		}
 	}
 	if c.cmd != 0 {
@@ -243,7 +257,7 @@ func vfMkResp(req *tikvrpc.Request, re *errorpb.Error) *tikvrpc.Response {
 }
 
 func vfDefaultCfg() vfCfg {
-	return vfCfg{rt: 'L', read: true, label: -1, live: [3]byte{'R', 'R', 'R'}, ms: 100000, val: true, tp: 'K', cx: "-", kl: "-"}
+	return vfCfg{rt: 'L', read: true, label: -1, live: [3]byte{'R', 'R', 'R'}, ms: 100000, val: true, tp: 'K', cx: "-", kl: "-", px: -1, pre: "-", olv: [3]byte{'-', '-', '-'}}
 }
 
 type vfRecorder struct{ run **vfRun }
@@ -582,19 +596,62 @@ func (f *vfFix) run(c vfCfg, script []string) vfRes {
 	if c.tp == 'F' || c.tp == 'D' {
 		return vfRunTp(c, script)
 	}
+	if c.pre != "-" && c.pre != "" {
+		// a sequence of calls on the same cached region: the earlier ones first, without resetting in between
+		p := c
+		p.pre = "-"
+		for k, ps := range strings.Split(c.pre, "/") {
+			var sc []string
+			if ps != "-" && ps != "" {
+				sc = strings.Split(ps, "+")
+			}
+			f.run1(p, sc, k == 0, true)
+		}
+		return f.run1(c, script, false, false)
+	}
+	return f.run1(c, script, true, false)
+}
+
+// run1: one SendReqCtx call.  reset: start from a freshly loaded region and clean stores (else: from whatever the cache holds,
+// which is observed and written into the reported configuration); keepAfter: leave the cache as the call left it.
+func (f *vfFix) run1(c vfCfg, script []string, reset bool, keepAfter bool) vfRes {
 	r := &vfRun{f: f, cfg: c, script: script, storeIdx: map[string]int{}, peerIDs: f.peerIDs}
+	if !reset {
+		rc := f.region()
+		rs := rc.getStore()
+		if len(rs.stores) != 3 {
+			panic("verif: fixture assumption broken (stores)")
+		}
+		c.ld, c.px = int(rs.workTiKVIdx), int(rs.proxyTiKVIdx)
+		for i, st := range rs.stores {
+			switch st.getLivenessState() {
+			case reachable:
+				c.olv[i] = 'R'
+			case unreachable:
+				c.olv[i] = 'U'
+			default:
+				c.olv[i] = 'K'
+			}
+			c.osl[i] = st.healthStatus.IsSlow()
+			c.es[i] = rs.storeEpochs[i] != atomic.LoadUint32(&st.epoch)
+			c.be[i] = st.loadStats.Load() != nil
+		}
+		r.cfg = c
+	}
 	// ---- reset the shared fixture
-	for k := range f.liveAns {
-		delete(f.liveAns, k)
+	if reset {
+		for k := range f.liveAns {
+			delete(f.liveAns, k)
+		}
+		f.cache.mu.Lock()
+		for _, old := range f.cache.mu.regions {
+			old.invalidate(Other, true)
+		}
+		f.cache.mu.Unlock()
 	}
-	f.cache.mu.Lock()
-	for _, old := range f.cache.mu.regions {
-		old.invalidate(Other, true)
-	}
-	f.cache.mu.Unlock()
 	rc := f.region()
 	rs := rc.getStore()
-	if len(rs.stores) != 3 || rs.workTiKVIdx != 0 {
+	if len(rs.stores) != 3 || (reset && rs.workTiKVIdx != 0) {
 		panic(fmt.Sprintf("verif: fixture assumption broken: stores=%d leader=%d", len(rs.stores), rs.workTiKVIdx))
 	}
 	stale := false
@@ -602,6 +659,9 @@ func (f *vfFix) run(c vfCfg, script []string) vfRes {
 		r.storeIdx[st.GetAddr()] = i
 		if st.storeID != f.storeIDs[i] || rc.meta.Peers[i].Id != f.peerIDs[i] {
 			panic("verif: store order")
+		}
+		if !reset {
+			continue
 		}
 		st.loadStats.Store(nil)
 		st.healthStatus.clientSideSlowScore.resetSlowScore()
@@ -885,7 +945,7 @@ func (f *vfFix) run(c vfCfg, script []string) vfRes {
 	if len(fails) > 0 {
 		orc = "fail:" + strings.Join(fails, ";")
 	}
-	if sender.replicaSelector != nil {
+	if sender.replicaSelector != nil && !keepAfter {
 		sender.replicaSelector.region.invalidate(Other, true)
 	}
 	sc := strings.Join(script, ",")
@@ -935,7 +995,7 @@ func (g *vfGen) emit(c vfCfg, script []string) vfRes {
 	}
 	// (not together with a cancelled context: SendReqCtx's run loop then returns at once while the retry goroutine is still
 	// running, so what was attempted "by the time the call returned" is a race)
-	if !c.async && c.tp == 'K' && c.cx == "-" && len(script) <= g.asyncMax {
+	if !c.async && c.tp == 'K' && c.cx == "-" && (c.pre == "-" || c.pre == "") && len(script) <= g.asyncMax {
 		// the same case through SendReqAsync (first attempt by initForAsyncRequest/handleAsyncResponse, then next())
 		a := c
 		a.async = true
@@ -1196,6 +1256,56 @@ func VerifSendReqMain(args []string) int {
 				L = LF - 1
 			}
 			g.enum(c, alphaA, nil, L)
+		}
+	}
+	// class S: sequences of calls on the SAME cached region with forwarding on: what call 1 (and 2) leave in the cache —
+	// memoised proxy, store liveness / epochs / slow marks, leader switches — is the initial state of the next call
+	{
+		rp := func(x []string, n int) []string {
+			var o []string
+			for i := 0; i < n; i++ {
+				o = append(o, x...)
+			}
+			return o
+		}
+		s1 := []string{"Eu", "Er", "Ek", "N1", "N2", "SC", "UK", "B0", "DN", "NL"}
+		var firsts []string
+		firsts = append(firsts, "-")
+		for _, a := range s1 {
+			firsts = append(firsts, a)
+			for _, b := range s1 {
+				firsts = append(firsts, a+"+"+b)
+			}
+		}
+		var lasts [][]string
+		lasts = append(lasts, nil)
+		for _, a := range alphaA {
+			lasts = append(lasts, []string{a})
+		}
+		lasts = append(lasts, rp([]string{"SC"}, 40), rp([]string{"UK"}, 40), rp([]string{"DN"}, 40), []string{"Eu", "Eu", "Eu"},
+			rp([]string{"N1", "N0"}, 20), rp([]string{"SC", "Eu"}, 10), rp([]string{"Er"}, 12), rp([]string{"B0"}, 12))
+		for _, rd := range []bool{true, false} {
+			c := vfDefaultCfg()
+			c.fw = true
+			c.read = rd
+			for _, p1 := range firsts {
+				for _, l := range lasts {
+					d := c
+					d.pre = p1
+					g.emit(d, l)
+				}
+			}
+			if thorough {
+				for _, a := range s1 {
+					for _, b := range s1 {
+						for _, l := range lasts {
+							d := c
+							d.pre = a + "/" + b
+							g.emit(d, l)
+						}
+					}
+				}
+			}
 		}
 	}
 	// class H: the caller cancels the context / the kill flag is set: before the call, while attempt i is in flight,
